@@ -261,10 +261,16 @@ int32_t psEccDsaVerify(psPool_t *pool, const psEccKey_t *key,
         }
     }
 
-    /* compute u1*mG + u2*mQ = mG */
-    if ((err = eccMulmod(pool, &u1, mG, mG, &m, 0, A)) != PS_SUCCESS)
+    /* compute u1*mG + u2*mQ = mG. The scalar multiplication does not
+       represent the point at infinity (for the scalar 0 it hands back its
+       input point): when the digest is 0 modulo the order, u1 is 0 and the
+       sum is u2*mQ alone. */
+    if (!pstm_iszero(&u1))
     {
-        goto error;
+        if ((err = eccMulmod(pool, &u1, mG, mG, &m, 0, A)) != PS_SUCCESS)
+        {
+            goto error;
+        }
     }
     if ((err = eccMulmod(pool, &u2, mQ, mQ, &m, 0, A)) != PS_SUCCESS)
     {
@@ -278,7 +284,16 @@ int32_t psEccDsaVerify(psPool_t *pool, const psEccKey_t *key,
     }
 
     /* add them */
-    if ((err = eccProjectiveAddPoint(pool, mQ, mG, mG, &m, &mp, A)) != PS_SUCCESS)
+    if (pstm_iszero(&u1))
+    {
+        if ((err = pstm_copy(&mQ->x, &mG->x)) != PS_SUCCESS ||
+            (err = pstm_copy(&mQ->y, &mG->y)) != PS_SUCCESS ||
+            (err = pstm_copy(&mQ->z, &mG->z)) != PS_SUCCESS)
+        {
+            goto error;
+        }
+    }
+    else if ((err = eccProjectiveAddPoint(pool, mQ, mG, mG, &m, &mp, A)) != PS_SUCCESS)
     {
         goto error;
     }
